@@ -170,6 +170,10 @@ class ScannerModel(object):
                 self.outer, [(f['name'], f['ty']['k'], f['ty'].get('len')) for f in self.fields]))
         self.ai = arr[0]
         self.extra = [i for i in range(len(self.fields)) if i != self.ai]
+        # an integer field with at least one bit per channel is seen as 16 per-channel bits: bit k belongs to the state of
+        # channel k, the other bits to the other channels (a write that changes them is interference)
+        self.bitsets = [i for i in self.extra if self.fields[i]['ty']['k'] == 'int'
+                        and self.fields[i]['ty']['name'] in ('u16', 'u32', 'u64', 'usize', 'i32', 'i64', 'u128')]
         af = self.fields[self.ai]
         self.array_len = af['ty']['len']
         self.array_field_private = all(f['vis'] != 'Public' for f in self.fields)
@@ -212,16 +216,67 @@ class ScannerModel(object):
         return m[0] if m else None
 
     # ---- tracked per-channel state <-> outer value
-    def wrap(self, outer_val, k):
-        arr = outer_val.fields[self.ai]
-        return Ag(STATE, 0, [arr.elems[k], Ag('()', 0, [outer_val.fields[i] for i in self.extra])])
+    def others_tok(self, i):
+        return T.T('others.%s' % self.fields[i]['name'], self.fields[i]['ty']['name'])
 
-    def build(self, state, k, others):
+    def bit_of(self, v, k, cons):
+        """bit k of a shared integer as a one-bit value: constant, a one-bit state token, or unknown"""
+        if not isinstance(v, Sc):
+            return Un({'k': 'bool'}, 'bit of %r' % (v,))
+        b = T.bits_of(v.term, cons, 32)
+        if b is None or k >= len(b):
+            return Un({'k': 'bool'}, 'bit %d of %s' % (k, T.tstr(v.term)))
+        x = b[k]
+        if x in (0, 1):
+            return Sc(C(x), H.BOOL)
+        if x != T.UNK and x[1][1].startswith('bit.') and x[2] == 0:
+            return Sc(x[1], H.BOOL)
+        return Un({'k': 'bool'}, 'bit %d of %s' % (k, T.tstr(v.term)))
+
+    def wrap(self, outer_val, k, cons=None):
+        arr = outer_val.fields[self.ai]
+        ex = []
+        for i in self.extra:
+            ex.append(self.bit_of(outer_val.fields[i], k, cons or {}) if i in self.bitsets else outer_val.fields[i])
+        return Ag(STATE, 0, [arr.elems[k], Ag('()', 0, ex)])
+
+    def build(self, state, k, others, cons=None):
         fields = [None] * len(self.fields)
         fields[self.ai] = Ar([state.fields[0] if j == k else others[j] for j in range(16)])
         for n, i in enumerate(self.extra):
-            fields[i] = state.fields[1].fields[n]
+            v = state.fields[1].fields[n]
+            if i in self.bitsets:
+                name = self.fields[i]['ty']['name']
+                ot = self.others_tok(i)
+                if cons is not None and ot not in cons:
+                    cons[ot] = T.ty_vs(name) if T.ty_vs(name).lo >= 0 else VS(0, (1 << 31) - 1)
+                rest = T.mk_op('BitAnd', ot, C(T.ty_vs(name).hi & ~(1 << k)) if T.ty_vs(name).lo >= 0 else C(((1 << 31) - 1) & ~(1 << k)), None, cons or {})
+                if isinstance(v, Sc) and v.term == C(0):
+                    term = rest
+                elif isinstance(v, Sc):
+                    term = T.mk_op('BitOr', rest, T.mk_op('Shl', v.term, C(k), None, cons or {}), None, cons or {})
+                else:
+                    term = ot        # unknown own bit: the field is entirely unknown
+                v = Sc(term, self.fields[i]['ty'])
+            fields[i] = v
         return Ag(self.outer, 0, fields)
+
+    def foreign_bits_changed(self, after, k, cons):
+        """[(field name, bits)] of per-channel bit sets whose bits of *other* channels differ from what they were"""
+        out = []
+        for i in self.bitsets:
+            v = after.fields[i]
+            ot = self.others_tok(i)
+            b = T.bits_of(v.term, cons, 32) if isinstance(v, Sc) else None
+            bad = []
+            for j in range(16):
+                if j == k:
+                    continue
+                if b is None or j >= len(b) or b[j] == T.UNK or b[j] in (0, 1) or not (b[j][1] == ot and b[j][2] == j):
+                    bad.append(j)
+            if bad:
+                out.append((self.fields[i]['name'], bad))
+        return out
 
 
 def msg_roles(F):
@@ -275,19 +330,21 @@ class StepOutcome(object):
         self.kind, self.why, self.value, self.st, self.new_state, self.interference, self.site = kind, why, value, st, new_state, interference, site
 
 
-def run_step(F, model, kind, code_state, cons, status=CUR_STATUS, d1=CUR_D1, d2=CUR_D2, k=0):
+def run_step(F, model, kind, code_state, cons, status=CUR_STATUS, d1=CUR_D1, d2=CUR_D2, k=0, seconds=None):
     """one abstract step of the *outer* scanner seen from channel k -> (interp, [StepOutcome]).
     The elements of the other 15 channels are unconstrained tops; any read or write of them is reported as
     interference (feed / poll); for reset they are new elements."""
     hooks = H.msg_hooks(status, d1, d2)
     I = Interp(F, abstract_methods=hooks)
+    if seconds is not None:
+        I.TIME_BUDGET = min(I.TIME_BUDGET, seconds)
     st = I.new_state()
     st.cons.update(cons)
     if kind == 'reset':
         others = [code_state.fields[0]] * 16
     else:
         others = [Un(model.sub_ty, 'channel %d' % j) for j in range(16)]
-    outer = model.build(code_state, k, others)
+    outer = model.build(code_state, k, others, st.cons)
     st.root().locals['self'] = outer
     selfref = Rf(0, 'self', (), True)
     if kind in ('cc', 'noncc', 'feed'):
@@ -311,14 +368,14 @@ def run_step(F, model, kind, code_state, cons, status=CUR_STATUS, d1=CUR_D1, d2=
             if not isinstance(arr, Ar) or len(arr.elems) != 16:
                 interf = 'unproven: the per-channel storage is no longer a 16-element array: %r' % (arr,)
             else:
-                new_state = model.wrap(after, k)
+                new_state = model.wrap(after, k, o.st.cons)
                 if kind != 'reset':
-                    interf = _interference(model, k, o, arr, others)
+                    interf = _interference(model, k, o, arr, others, after)
         res.append(StepOutcome(o.kind, o.why, o.value, o.st, new_state, interf, o.site))
     return I, res
 
 
-def _interference(model, k, o, arr, others):
+def _interference(model, k, o, arr, others, after=None):
     """explicit writes of this call into the state of another channel or into a field shared by all channels;
     reads of another channel's state (its lazily materialised top differs from the untouched original)"""
     written, shared, weak = set(), set(), False
@@ -334,7 +391,8 @@ def _interference(model, k, o, arr, others):
         if path[0][0] != 'f':
             continue
         if path[0][1] != model.ai:
-            shared.add(path[0][1])
+            if path[0][1] not in model.bitsets:
+                shared.add(path[0][1])
             continue
         if len(path) == 1:
             # the whole array is assigned: compare element-wise below
@@ -347,6 +405,10 @@ def _interference(model, k, o, arr, others):
             written.add(idx.lo)
     if written:
         return 'an input for channel %d writes the state of channel(s) %s' % (k, sorted(written)[:4])
+    if after is not None and model.bitsets:
+        fb = model.foreign_bits_changed(after, k, o.st.cons)
+        if fb:
+            return 'an input for channel %d changes the bits of channel(s) %s in the per-channel bit set %s' % (k, fb[0][1][:6], fb[0][0])
     if weak:
         return 'an input for channel %d writes a per-channel element whose index is not determined by the channel' % k
     if shared:
@@ -367,7 +429,7 @@ def initial_states(F, model, spec, k=0):
         outs = I.run(hit[0], [], hit[1])
         if len(outs) == 1 and outs[0].kind == 'return' and _uniform(model, outs[0].value):
             to = ('app', 'Duration::default', ()) if spec.has_poll else None
-            res.append(('default', model.wrap(outs[0].value, k), spec.init(to), {}))
+            res.append(('default', model.wrap(outs[0].value, k, outs[0].st.cons), spec.init(to), {}))
     newk = model.outer + '::new'
     if newk in F.fns:
         I = Interp(F)
@@ -380,7 +442,7 @@ def initial_states(F, model, spec, k=0):
             outs = I.run(newk, [], [], st)
             init = spec.init(None)
         if len(outs) == 1 and outs[0].kind == 'return' and _uniform(model, outs[0].value):
-            res.append(('new', model.wrap(outs[0].value, k), init, {}))
+            res.append(('new', model.wrap(outs[0].value, k, outs[0].st.cons), init, {}))
     return res
 
 
@@ -463,7 +525,7 @@ def walk_tree(tree, preds, cons):
     return walk_tree(a, preds, cons) + walk_tree(b, preds, cons)
 
 
-EXPLORE_SECONDS = 40.0      # wall-clock budget of one channel's exploration; exceeding it fails closed
+EXPLORE_SECONDS = 40.0      # CPU-time budget of one channel's exploration; exceeding it fails closed
 
 
 def explore(F, model, spec, k=0, max_pairs=200):
@@ -486,10 +548,10 @@ def explore(F, model, spec, k=0, max_pairs=200):
         P.mismatches.append((None, 'init', 'no initial state: Default / new of the scanner could not be interpreted, or its 16 elements differ'))
     ch = C(k)
     import time as _time
-    t_end = _time.time() + EXPLORE_SECONDS
+    t_end = _time.process_time() + EXPLORE_SECONDS
     P.exhausted = False
     while work:
-        if _time.time() > t_end:
+        if _time.process_time() > t_end:
             P.exhausted = True
             P.mismatches.append((work[0], 'init', 'unproven: the exploration of channel %d did not finish within %.0f s (%d abstract pairs so far)' % (
                 k, EXPLORE_SECONDS, len(P.pairs))))
@@ -497,6 +559,8 @@ def explore(F, model, spec, k=0, max_pairs=200):
         key = work.pop(0)
         cs, ss, cons, _ = P.pairs[key]
         for cname, kind, rng in spec.classes:
+            if _time.process_time() > t_end:
+                break
             if kind == 'poll' and not model.outer_key('poll'):
                 P.mismatches.append((key, cname, 'scanner has no poll method'))
                 continue
@@ -505,7 +569,7 @@ def explore(F, model, spec, k=0, max_pairs=200):
                 continue
             c0 = dict(cons)
             c0.update(class_cons(cname, kind, rng, k))
-            I, outs = run_step(F, model, kind, cs, c0, k=k)
+            I, outs = run_step(F, model, kind, cs, c0, k=k, seconds=max(1.0, t_end - _time.process_time()))
             P.steps += I.total_steps
             P.fns |= I.fns_entered
             for o in outs:
@@ -654,6 +718,7 @@ def product_for(F, spec_cls, public_name):
             os.rename(cp + '.tmp', cp)
         except Exception:
             pass
+    P0 = allp[0]
     for k in range(1, 16):
         if k not in allp:
             allp[k] = P0       # only when channel 0 exhausted its budget (reported there)
